@@ -19,6 +19,9 @@ class NotEvaluable(Exception):
     pass
 
 
+UNEVALUABLE = {}   # clause text -> reason: postconditions the run-time interpretation could not evaluate (ghost-only clauses)
+
+
 def _forall(lo, hi, f):
     return all(f(k) for k in range(int(lo), int(hi)))
 
@@ -52,6 +55,10 @@ def _psum(a, k):
 
 def _ksum(keys, vals, K, lo, hi):
     return float(sum(float(vals[p]) for p in range(int(lo), int(hi)) if keys[p] == K))
+
+
+def _dict_values_in(d, lo, hi):
+    return all(lo <= v < hi for v in d.values())
 
 
 def _is_int(x):
@@ -125,7 +132,7 @@ class Contract:
 
     def env(self, args, old_args=None, result=None, has_result=False):
         e = dict(forall=_forall, forall2=_forall2, exists=_exists, strictly_increasing=_strictly_increasing, nondecreasing=_nondecreasing,
-                 member=_member, psum=_psum, ksum=_ksum, is_int=_is_int, np=np, len=len, abs=abs, min=min, max=max)
+                 member=_member, psum=_psum, ksum=_ksum, is_int=_is_int, dict_values_in=_dict_values_in, np=np, len=len, abs=abs, min=min, max=max)
         e.update(self.extra)
         e.update(args)
         if has_result:
@@ -166,8 +173,9 @@ class Contract:
             try:
                 if not self.holds(e, env):
                     bad.append((i + 1, e))
-            except NotEvaluable:
+            except NotEvaluable as ex:
                 skipped += 1
+                UNEVALUABLE[e] = str(ex)[:80]
             except (IndexError, KeyError) as ex:
                 bad.append((i + 1, e + "  [raised %s while evaluating]" % type(ex).__name__))
         return bad, skipped
